@@ -6,6 +6,7 @@ Line protocol:
   `trace <script>`                 → step names, comma separated
   `app <script> <idx>`             → fault kinds injectable at await point idx (`none` = no such point)
   `wf <script>`                    → `<storeLast> <allChecked> <allGuarded> <commits>`
+  `errclass <handler|raw> <kind>`  → `pairing|connection|other` (the error_handler mapping)
 -/
 namespace PyatvModel.C08
 
@@ -39,6 +40,11 @@ def handle (_ : Unit) (ws : List String) : Unit × String :=
     match script? name with
     | some s => ((), s!"{b01 (storeLast s)} {b01 (allChecked s)} {b01 (allGuarded s)} {b01 (commits s)}")
     | none => ((), "bad-op")
+  | ["errclass", g, kind] =>
+    match (if g == "handler" then some Guard.handler else if g == "raw" then some Guard.raw else none),
+          Fault.ofStr? kind with
+    | some g, some f => ((), (errClass g f).toStr)
+    | _, _ => ((), "bad-op")
   | _ => ((), "bad-op")
 
 end PyatvModel.C08
